@@ -656,6 +656,13 @@ func ruleCarriedState(c *Ctx, sa *sharedAnalysis, r *Report, rule string, allowe
 		if len(s.SyncW) == 0 {
 			continue
 		}
+		// a carried location that API handlers can write makes results depend on the requests served
+		if _, allowedLoc := allowed[l]; !allowedLoc || len(s.APIW) > 0 {
+			for _, fw := range sortedFuncs(fnSet(s.APIW)) {
+				ws := byFn(s.APIW)[fw]
+				r.viol(rule, fmt.Sprintf("carried location %s written by %s on API handler goroutines", l, fname(fw)), c.ipos(ws[0].Ins), "in-memory state that block processing reads is written while serving an API request: later results depend on which requests the process has served since it started")
+			}
+		}
 		for _, fw := range sortedFuncs(fnSet(s.SyncW)) {
 			ws := byFn(s.SyncW)[fw]
 			cons := fmt.Sprintf("carried location %s written by %s", l, fname(fw))
